@@ -179,6 +179,31 @@ def check_case(case):
                         break
             if r.fails:
                 continue
+        # one Domain object, two problems with different object tables: the action is first tested in the full problem,
+        # then applied in a problem that declares only the objects of the call (what the first problem declared must
+        # not be ranged over in the second)
+        if "two-tables" in case.get("tags", []):
+            from ..bridge import make_state
+            small = {o: t for o, t in pg.objects.items() if o in args}
+            small_all = pg.S.all_objects(small)
+            for st, s_succ, p_succ in judged:
+                lib_st, prob = pg.lib_state(st)
+                guard(lambda: pg.op("a", args, prob).is_applicable(lib_st))
+                st2 = RefState([a for a in st.atoms if all(x in small_all for x in a[1:])],
+                               {k: v for k, v in st.fluents.items() if all(x in small_all for x in k[1:])})
+                if ref_applicable(pg.S, "a", args, st2, small_all) is not True:
+                    continue
+                want2 = ref_successor(pg.S, "a", args, st2, small_all)
+                if not isinstance(want2, RefState):
+                    continue
+                ls2, pr2 = make_state(pg.D, pg.S.name, small, st2, constants=pg.S.constants)
+                got = observe(guard(lambda: operator(pg.D, "a", args, pr2.objects).apply(ls2)))
+                r.count("transitions")
+                r.count("two-tables")
+                if judge(got, want2, None, args, st2, f"second problem over the same Domain object declares only {sorted(small)}"):
+                    break
+            if r.fails:
+                continue
         # for quantified effects, every declaration order of the problem's objects
         if "forall" in case.get("tags", []):
             from itertools import permutations
